@@ -14,6 +14,7 @@ func init() {
 		e.REntry()
 		e.RFileScope()
 		e.RPerFileState()
+		e.RPackageCommentGap()
 		e.RNewlineScan()
 		e.RClauseSym()
 		e.RHangGuard()
